@@ -10,10 +10,10 @@
 namespace scn {
 
 enum Diag { PASS = 0, UNEXPECTED_CALL, ADDITIONAL, PARAM_NAME, PARAM_VALUE, PARAM_MISSING, OBJ_UNEXPECTED, OBJ_MISSING,
-            NOT_FULFILLED, OUT_OF_ORDER, OTHER_FAILURE, NDIAG };
+            NOT_FULFILLED, OUT_OF_ORDER, OUT_NAME, OUT_TYPE, OTHER_FAILURE, NDIAG };
 inline const char* diag_name(int d) {
     static const char* n[] = {"PASS", "UNEXPECTED_CALL", "ADDITIONAL_CALL", "PARAM_NAME", "PARAM_VALUE", "PARAM_MISSING",
-                              "OBJ_UNEXPECTED", "OBJ_MISSING", "NOT_FULFILLED", "OUT_OF_ORDER", "OTHER_FAILURE"};
+                              "OBJ_UNEXPECTED", "OBJ_MISSING", "NOT_FULFILLED", "OUT_OF_ORDER", "UNEXPECTED_OUTPUT_NAME", "UNEXPECTED_OUTPUT_TYPE", "OTHER_FAILURE"};
     return n[d];
 }
 
@@ -39,6 +39,9 @@ struct Act {
 struct Scenario {
     bool strict = false, ignoreOtherCalls = false, readReturn = false, outParam = false;
     int extraOut = 0;      // 1 / 2: every actual call also passes an output parameter "x" no expectation names, before / after "o"
+                           // 3 / 4: (no "o") every actual call passes, after its input parameters, an output parameter named "x" (a name
+                           //        nothing declares) / named "p" (which expectations may declare as an INPUT parameter): nothing
+                           //        expects an output of that name, so only ignoreOtherParameters can accept it
     int scoped = 0;        // 1: function index 1 is "f" in the mock scope "s" (instead of the global function "g");
                            // 2: function 0 is "f" in scope "s" and function 1 is "f" in scope "t" (two named scopes, global mock unused)
     std::vector<Exp> exps;
@@ -70,7 +73,8 @@ inline std::string render(const Scenario& s) {
     }
     if (s.readReturn) o += "[return values read] ";
     if (s.outParam) o += "[output parameter o] ";
-    if (s.extraOut) o += s.extraOut == 1 ? "[unnamed output parameter x passed before o] " : "[unnamed output parameter x passed after o] ";
+    if (s.extraOut >= 3) o += s.extraOut == 3 ? "[unexpected output parameter x passed last] " : "[output parameter named p passed last] ";
+    else if (s.extraOut) o += s.extraOut == 1 ? "[unnamed output parameter x passed before o] " : "[unnamed output parameter x passed after o] ";
     return o;
 }
 
@@ -231,6 +235,11 @@ inline Expected reference(const Scenario& s) {
                 return fail(declared_somewhere ? PARAM_VALUE : PARAM_NAME, (int)c, (int)c);
             }
         }
+        if (s.extraOut >= 3) {
+            std::vector<int> R2; for (int i : R) if (s.exps[i].ignoreOther) R2.push_back(i);
+            R = R2;
+            if (R.empty()) return fail(OUT_NAME, (int)c, (int)c);      // no expectation has an OUTPUT parameter of that name
+        }
         int m = -1; bool missing_param = false;
         for (int i : R) {
             const Exp& e = s.exps[i];
@@ -266,6 +275,8 @@ inline Expected reference(const Scenario& s) {
 inline int classify_message(const std::string& out) {
     if (out.find("Unexpected additional (") != std::string::npos) return ADDITIONAL;
     if (out.find("Mock Failure: Unexpected call to function") != std::string::npos) return UNEXPECTED_CALL;
+    if (out.find("Unexpected output parameter name to function") != std::string::npos) return OUT_NAME;
+    if (out.find("Unexpected parameter type") != std::string::npos && out.find("to output parameter") != std::string::npos) return OUT_TYPE;
     if (out.find("Unexpected parameter name to function") != std::string::npos) return PARAM_NAME;
     if (out.find("Unexpected parameter value to parameter") != std::string::npos) return PARAM_VALUE;
     if (out.find("Mock Failure: Expected parameter for function") != std::string::npos) return PARAM_MISSING;
